@@ -926,3 +926,88 @@ func init() {
 			return out
 		}})
 }
+
+// CREDFORM — CRed is applied to a sum or difference of residues, not to a value of unknown size.
+//
+// CRed(x, q) subtracts q once: it reduces only x < 2q. Every use outside the unrolled kernels has the form
+// `CRed(a + b, q)`, `CRed(a + q - b, q)`, `CRed(q - c, q)`: the conditional subtraction after an addition of residues.
+// `CRed(coeff, P[i])` on a digit of another prime, or `CRed(uint64(c), T)` on a raw input value, replaces a full
+// reduction (BRedAdd) by one that is wrong as soon as the value reaches 2q.
+//
+// Rule: outside ring/vec_ops.go and ring/ntt.go, the first argument of every CRed call is an addition or subtraction
+// (directly, or a local all of whose reaching definitions are).
+func scanCRedForm(c *core.Ctx) []ob {
+	var out []ob
+	n := 0
+	c.FuncDecls(func(pk *packages.Package, file *ast.File, fd *ast.FuncDecl) {
+		fnm := c.RelFile(fd.Pos())
+		if fd.Body == nil || fileIsTestSupport(c.Program, fd.Pos()) || inExamples(pk) || strings.HasSuffix(fnm, "vec_ops.go") || strings.HasSuffix(fnm, "ntt.go") || strings.HasSuffix(fnm, "modular_reduction.go") {
+			return
+		}
+		info := pk.TypesInfo
+		fkey := core.FuncKey(pk, fd)
+		var rd *reachInfo
+		var additive func(e ast.Expr, at ast.Node, depth int) bool
+		additive = func(e ast.Expr, at ast.Node, depth int) bool {
+			switch x := unparen(e).(type) {
+			case *ast.BinaryExpr:
+				return x.Op == token.ADD || x.Op == token.SUB
+			case *ast.Ident:
+				if depth > 2 {
+					return false
+				}
+				v, ok := info.Uses[x].(*types.Var)
+				if !ok || v.IsField() {
+					return false
+				}
+				if rd == nil {
+					rd = reachingDefs(info, fd)
+				}
+				rhs, initial, ok := rd.defsAt(at, v)
+				if !ok || initial || len(rhs) == 0 {
+					return false
+				}
+				for _, r := range rhs {
+					if r == nil || !additive(r, at, depth+1) {
+						return false
+					}
+				}
+				return true
+			}
+			return false
+		}
+		ord := 0
+		ast.Inspect(fd.Body, func(x ast.Node) bool {
+			call, ok := x.(*ast.CallExpr)
+			if !ok || len(call.Args) != 2 {
+				return true
+			}
+			fn := calleeFunc(info, call)
+			if fn == nil || fn.Name() != "CRed" || fn.Pkg() == nil || !(strings.HasSuffix(fn.Pkg().Path(), "/ring") || c.IsFixture) {
+				return true
+			}
+			n++
+			ord++
+			key := fmt.Sprintf("CREDFORM:%s#%d", fkey, ord)
+			if additive(call.Args[0], call, 0) {
+				out = append(out, withProps(okOb("CREDFORM", key, c.Rel(call.Pos()), "CRed follows an addition/subtraction", true), propsForKey(fkey)...))
+			} else {
+				out = append(out, withProps(violOb("CREDFORM", key, c.Rel(call.Pos()), fmt.Sprintf("%s applies CRed (one conditional subtraction) to %s, which is not a sum or difference of residues: a value of 2q or more is not reduced", fkey, exprString(call.Args[0]))), propsForKey(fkey)...))
+			}
+			return true
+		})
+	})
+	c.Stats["credform_sites"] = n
+	return out
+}
+
+func init() {
+	core.Register(&core.Rule{Name: "CREDFORM", Wide: true, Props: []string{"C01", "C02", "C03", "C04", "C05", "C06", "C07", "C08", "C09", "C10", "C11", "C12", "C13", "C14", "C15", "C16", "C17", "C18", "C19", "C20"},
+		Doc: "outside the unrolled kernels, the first argument of every CRed call is an addition or subtraction (directly or through locals all of whose reaching definitions are)",
+		Run: func(c *core.Ctx) []ob {
+			out := scanCRedForm(c)
+			out = append(out, control(c, "CREDFORM", scanCRedForm, "lvfixture.credRaw")...)
+			out = append(out, core.Floor("CREDFORM", nil, "CRed calls outside the kernels", c.Stats["credform_sites"], 8)...)
+			return out
+		}})
+}
